@@ -12,5 +12,6 @@ assert a in s, "pattern not found"
 open(p, 'w').write(s.replace(a, b, 1))
 PY
 cd /verif
+export VERIF_EVIDENCE_DIR=/tmp/verif_scratch_evidence; mkdir -p $VERIF_EVIDENCE_DIR
 VERIF_REPO=$D ./check $1 quick 2>&1 | grep -E "^(FAILED|UNDEC|CHECKER|VIOL|C[0-9][0-9] )" | cut -c1-${CUT:-260} | head -${HEAD:-6}
 rm -rf $D
